@@ -264,6 +264,11 @@ func fileCloseAux(L *LState, file *lFile) int {
 	if file.writer != nil {
 		if bwriter, ok := file.writer.(*bufio.Writer); ok {
 			if err = bwriter.Flush(); err != nil {
+				// like fclose, close releases the file even when the last
+				// bytes could not be written; the error is still reported
+				if file.Type() == lFileFile {
+					file.fp.Close()
+				}
 				goto errreturn
 			}
 		}
